@@ -79,13 +79,15 @@ def tree_spec(draw, root="capsule", max_nodes=10, allow_links=True, names=None):
         p = parent + "/" + name
         if p in existing or any(n["p"] == p for n in nodes):
             continue
-        kind = draw(st.sampled_from(["file", "file", "file", "dir", "dir", "link"] if allow_links else ["file", "file", "dir"]))
+        kind = draw(st.sampled_from(["file", "file", "file", "file", "dir", "dir", "link", "link", "fifo"] if allow_links else ["file", "file", "dir"]))
         if kind == "dir":
             nodes.append({"p": p, "t": "dir"})
             dirs.append(p)
         elif kind == "file":
             content = draw(st.sampled_from(["text", "text", "text", "binary", "empty", "big", "crlf"]))
             nodes.append({"p": p, "t": "file", "c": content})
+        elif kind == "fifo":
+            nodes.append({"p": p, "t": "fifo"})  # a named pipe: opening it for reading blocks until somebody writes
         else:
             candidates = existing + [n["p"] for n in nodes] + ["DANGLING", "SELF", "PARENT"]
             tgt = draw(st.sampled_from(candidates))
@@ -121,6 +123,8 @@ def build(spec) -> str:
             elif node["t"] == "file":
                 with open(full, "wb") as f:
                     f.write(file_bytes(node))
+            elif node["t"] == "fifo":
+                os.mkfifo(full)
             else:
                 to = node["to"]
                 if to == "DANGLING":
@@ -156,6 +160,8 @@ def snapshot(S: str):
                 out.append((rel, "link", os.readlink(full).decode("utf-8", "surrogateescape"), 0, ""))
             elif stat.S_ISDIR(stt.st_mode):
                 out.append((rel, "dir", "", 0, ""))
+            elif stat.S_ISFIFO(stt.st_mode):
+                out.append((rel, "fifo", "", 0, ""))
             else:
                 with open(full, "rb") as f:
                     data = f.read()
